@@ -16,7 +16,7 @@ func init() {
 	register(&Rule{
 		ID: "AL-1", Props: []string{"C07", "C05"}, Min: 6,
 		Doc: `derived sequences own fresh storage: in every method of pkg/obiseq that builds a new BioSequence (NewEmptyBioSequence/NewBioSequence bound to a local), each
-store of a slice or map into a field of the new object must come from an allocation or a copying helper (CopySlice, GetSlice, GetAnnotation(src), make, slices.Clone, nil) —
+store of a slice, map or pointer into a field of the new object must come from an allocation or a copying helper (CopySlice, GetSlice, GetAnnotation(src), make, slices.Clone, nil) —
 never from a field of the source, a getter result (Sequence(), Qualities(), Annotations()) or a sub-slice of one: the copy would share mutable storage with its source, so
 modifying or recycling one changes the other. The revcomp back-pointer is the tabled exception.`,
 		Run: runAL1,
@@ -115,7 +115,7 @@ func runAL1(c *Ctx, s *Sink) {
 					continue
 				}
 				switch tv.Type.Underlying().(type) {
-				case *types.Slice, *types.Map:
+				case *types.Slice, *types.Map, *types.Pointer:
 				default:
 					continue
 				}
